@@ -29,7 +29,7 @@ func (c12) Assumptions() []string {
 	return []string{"reduced scope: the Read* function of the same tree is the reference for what the reader accepts (C05/C04/C06/C13 own that); C12 decides only the store/no-store/offset behaviour around it"}
 }
 func (c12) Required(tier string) []string {
-	return []string{"T-prior", "null-with-nonzero-prior", "error-with-nonzero-prior", "success-overwrites-prior", "near-miss-null", "null-behind-whitespace", "dirty-scratch", "scratch-reused-across-decodes"}
+	return []string{"T-prior", "null-with-nonzero-prior", "error-with-nonzero-prior", "success-overwrites-prior", "near-miss-null", "null-behind-whitespace", "dirty-scratch", "scratch-reused-across-decodes", "prefix-then-null"}
 }
 
 var decodeFns = []string{"DecodeBool", "DecodeFloat64", "DecodeInt64", "DecodeInt32", "DecodeInt", "DecodeUint64", "DecodeUint32", "DecodeUint", "DecodeString"}
@@ -50,7 +50,12 @@ func genDecodeInput(r *Rand, fn string) Doc {
 	rangeErr := []string{"9223372036854775808", "-9223372036854775809", "18446744073709551616", "2147483648", "-2147483649", "4294967296", "1e999", "-1e999", "99999999999999999999999", "1.0", "1e0", "-0.0"}
 	nulls := []string{"null", " null", "\tnull", "\r\nnull", " \t\r\n null", "null ", "null,", "nullx", "null1", "nullnull", "\n\n\nnull]"}
 	near := []string{"nul", "nulL", "Null", "NULL", "n", "nu", "nul ", " nul", "nil", "nulll"[:3], "\vnull", "\fnull", "nu ll", "\x00null", "/null", "n\x00ll"}
-	switch r.Pick(6, 5, 3, 3, 3, 2, 1) {
+	// what a reader half-consumes before giving up, directly followed by null
+	prefixNull := []string{"-null", "tnull", "fnull", "trunull", "1e999null", "-1e999null", "4294967296null", "2147483648null", "18446744073709551616null", "9223372036854775808null",
+		`"ab\u12null`, `"abnull`, "1.null", "1enull", "1e+null", "-null ", " -null", "nnull", "nunull", "nulnull", "0null", "1null", `"a"null`, "truenull", "[null", "{null", ",null", ":null"}
+	switch r.Pick(6, 5, 3, 3, 3, 2, 1, 3) {
+	case 7:
+		return docOf([]byte(prefixNull[r.Intn(len(prefixNull))]), "prefix-then-null")
 	case 0:
 		v := okVals[fn]
 		return docOf([]byte(v[r.Intn(len(v))]), "accepted")
@@ -228,6 +233,9 @@ func (c12) Exec(sc *Scenario, st *Stats) *Violation {
 			}
 			if d.Class == "near-miss-null" {
 				st.probe("near-miss-null")
+			}
+			if d.Class == "prefix-then-null" {
+				st.probe("prefix-then-null")
 			}
 			if err == nil {
 				return viol("error-swallowed", fmt.Sprintf("neither the reader nor null matches, but Decode returned offset %d with nil error", p))
